@@ -271,7 +271,8 @@ def value_classes(v, acc=None):
 # ----------------------------------------------------------------------------- strategies
 
 BLANKS = st.sampled_from(["", "", " ", " ", "  ", "\t", " \t "])
-COMMENT_TEXT = st.text(alphabet=st.sampled_from(list("abc XYZ09_=()[],:\"'#é-+.")), max_size=12).map(lambda s: "#" + s)
+COMMENT_TEXT = st.text(alphabet=st.sampled_from(list("abc XYZ09_=()[],:\"'#é-+.") + ["\x0c", "\x0b", "\x1c", "\x1d", "\x1e", "\x85", "\u2028", "\u2029"]),
+                       max_size=12).map(lambda s: "#" + s)
 
 
 @st.composite
